@@ -13,7 +13,12 @@
 (*   decode(t)          values from a Decoder into a target of kind t (a   *)
 (*                      struct with every kind of field, a top-level       *)
 (*                      RawMessage, an interface): backed by Fresh (never  *)
-(*                      by DecBuf, which later calls compact and refill)   *)
+(*                      by DecBuf, which later calls compact and refill);  *)
+(*                      at = "end": the value ends exactly where the       *)
+(*                      buffered data ends while more input is to come, so *)
+(*                      that the next fill writes over the very place the  *)
+(*                      value was read from; at = "inside": more buffered  *)
+(*                      data follows it                                    *)
 (*   tokstring(k)       Tokenizer.String: may alias Input(k)               *)
 (*   overwrite(k)       the caller scribbles over Input(k)                 *)
 (*   churn              many further library calls (pools re-acquired,     *)
@@ -25,7 +30,8 @@
 (***************************************************************************)
 EXTENDS Naturals, Sequences, FiniteSets, TLC, Json
 
-CONSTANTS MaxSteps, Inputs, Emit
+CONSTANTS MaxSteps, Inputs, Emit,
+          ZeroCopyAtEnd   \* deviation witness: a value that is the last of the buffered data is decoded without copying
 
 VARIABLES hist,      \* sequence of actions [op, k, zc]
           results,   \* sequence of [op, k, zc]: one per result-producing action
@@ -34,11 +40,14 @@ VARIABLES hist,      \* sequence of actions [op, k, zc]
 
 vars == <<hist, results, dirty, may>>
 
-Act(op, k, zc) == [op |-> op, k |-> k, zc |-> zc, t |-> ""]
+Act(op, k, zc) == [op |-> op, k |-> k, zc |-> zc, t |-> "", at |-> ""]
 Targets == {"struct", "raw", "any"}
+Ats == {"inside", "end"}
 
 \* regions a result may be backed by
-Backing(r) == IF (r.op = "unmarshal" /\ r.zc) \/ r.op = "tokstring" THEN {"Fresh", "Input"} ELSE {"Fresh"}
+Backing(r) == IF (r.op = "unmarshal" /\ r.zc) \/ r.op = "tokstring" THEN {"Fresh", "Input"}
+              ELSE IF ZeroCopyAtEnd /\ r.op = "decode" /\ r.at = "end" THEN {"Fresh", "DecBuf"}
+              ELSE {"Fresh"}
 MayChange(rs, d) == {i \in 1..Len(rs) : "Input" \in Backing(rs[i]) /\ rs[i].k \in d}
 
 Init == hist = <<>> /\ results = <<>> /\ dirty = {} /\ may = <<>>
@@ -51,7 +60,7 @@ Step(a) ==
   /\ may' = Append(may, MayChange(results', dirty'))
 
 Next == \/ Step(Act("marshal", 0, FALSE))
-        \/ \E t \in Targets : Step([Act("decode", 0, FALSE) EXCEPT !.t = t])
+        \/ \E t \in Targets, e \in Ats : Step([Act("decode", 0, FALSE) EXCEPT !.t = t, !.at = e])
         \/ Step(Act("churn", 0, FALSE))
         \/ \E k \in Inputs, zc \in BOOLEAN : k \notin dirty /\ Step(Act("unmarshal", k, zc))   \* a lent input is intact when used
         \/ \E k \in Inputs : k \notin dirty /\ Step(Act("tokstring", k, FALSE))
